@@ -91,6 +91,13 @@ CHECKS.update({
             "note": "Trusted base: kernel, SimTimer, SimLoop/executor threads, SimFS. Save calls are observed through a class-level wrapper of Persistence.save_sensors installed by the harness (no repo change). Pre-emption granularity: Python lines in mysensors/* and json/encoder.py; the C pickler is atomic between __getstate__ calls."},
 })
 
+CHECKS.update({
+    "C19": {"category": "exploration", "design_ref": "DESIGN.md 5/C19",
+            "technique": "deterministic simulation, differential: one byte stream executed under drawn segmentations, gateway flavours and seeded reader/pump schedules; final state and ordered transport log compared with a reference execution",
+            "text": "One simulated byte stream is replayed through threaded and asyncio serial/TCP gateways with drawn chunk boundaries (incl. inside UTF-8 sequences and between CR and LF) and drawn reader/pump schedules; every execution must end in the reference execution's state and emitted command sequence.",
+            "note": "Trusted base: kernel, fake devices (socket reads capped at 120 bytes as the library asks), asyncio transport stubs. Time-reply payloads and TCP watchdog probes are normalised (clock driven). Sampling of streams, segmentations and schedules."},
+})
+
 NOT_APPLICABLE = {
     "C02": "pure function of its arguments (Message.decode/encode/copy): no schedule, clock, I/O, fault or history can change the result, so deterministic simulation has nothing to decide (DESIGN.md section 6)",
     "C03": "acceptance is a pure function of (version, line); an exhaustive header x payload-class product is table enumeration, not a search over schedules or faults (DESIGN.md section 6)",
